@@ -77,6 +77,10 @@ def condition(cond, flat, ctx, strict):
         sender = get_str(flat, "sender")
         if pl is None or sender is None:
             return False
+        # the power of "the sender": without a sender that is a user ID there is nobody whose power
+        # could suffice (callers only feed clearly valid / clearly invalid values)
+        if not (sender.startswith("@") and ":" in sender[1:] and not sender.endswith(":")):
+            return False
         level = pl.get("users", {}).get(sender, pl.get("users_default", 0))
         if cond["key"] != "room":
             return False
